@@ -173,7 +173,7 @@ def rule_apply(chk):
         key = U(loop.target.elts[0])
         arrv = U(loop.target.elts[1])
         st = c.args[1] if len(c.args) > 1 else None
-        sdef = None
+        sdef = compact(st) if st is not None and not isinstance(st, ast.Name) else None     # the look-up may be written in place
         for a in loop.body:
             if isinstance(a, ast.Assign) and st is not None and compact(a.targets[0]) == compact(st):
                 sdef = compact(a.value)
